@@ -7,6 +7,10 @@
 #    file-name bookmarks, while the file form does (default configuration: createBookmarks on).
 # 3. (observation, not flagged) properties add/remove refuse `cmd - args` (stdin without an output
 #    argument), every other command writes to stdout in that case.
+# 4. import with an image on stdin and an outFile that does not exist yet always fails
+#    ("import images: prepare PDF context: read context: invalid argument"): importImagesToFile hands a
+#    nil *os.File to api.ImportImages as a non-nil io.ReadSeeker. `import - -` and the all-files form work.
+#    (repair: /verif/.cache/patches/C41-import-stdin-image-new-outfile.diff)
 set -u
 REPO=${1:-/repo}
 W=$(mktemp -d "${VERIF_CACHE:-/verif/.cache}/run/c41-repro.XXXXXX")
@@ -41,3 +45,9 @@ echo "stdin form bookmarks:"; $P bookmarks list m2.pdf 2>&1 | tail -1
 echo "== 3. properties add - 'k = v' (no output argument)"
 $P properties add - 'Dept = QA' < one.pdf > p.pdf; echo "exit=$?"
 $P keywords add - kw < one.pdf > k.pdf 2>/dev/null; echo "keywords add - kw: exit=$? ($(head -c 8 k.pdf))"
+
+echo "== 4. import: image file vs the same image on stdin, new outFile"
+cp "$REPO/pkg/testdata/resources/logoVerySmall.png" img.png
+$P import i1.pdf img.png >/dev/null 2>&1; echo "file form:   exit=$?"
+$P import i2.pdf - < img.png > /dev/null 2> err.txt; echo "stdin form:  exit=$? ($(tail -1 err.txt))"
+$P import - - < img.png 2>/dev/null | head -c 8; echo "  <- import - - (stdout) works"
